@@ -129,6 +129,9 @@ type fixture struct {
 }
 
 func newFixture() *fixture {
+	// package-level caches are part of the state a schedule starts from
+	cmap.VerifResetPredefined()
+	mapping.VerifResetCaches()
 	data := buildFile()
 	r, err := pdf.NewReader(bytes.NewReader(data), int64(len(data)), nil)
 	if err != nil {
